@@ -1278,6 +1278,145 @@ def _specialise_constant_dispatch(tree: ast.Module, modname: str, known: Optiona
                     c.keywords = [k for k in c.keywords if k.arg != disp]
 
 
+def _specialise_handler_class_params(tree: ast.Module, modname: str, known: Optional[set]) -> None:
+    """A private helper introduced after the rules were written whose parameter is the tuple of exception classes it
+    swallows (`def _fsync_path(path, ignore=None): ... except ignore: pass`), called only with literal tuples / None / the
+    default: one copy per distinct argument, the parameter substituted by the tuple it denotes there - after the helper's own
+    default resolution, for the spellings `if p is None: p = E`, `p = p or E` (an EMPTY tuple is falsy), `p = E if p is None
+    else p` at the top of its body.  The rules then see `except (OSError, AttributeError):` resp. `except ():` per call site."""
+    import copy
+    if known is None:
+        return
+    consts = {st.targets[0].id: st.value for st in tree.body if isinstance(st, ast.Assign) and len(st.targets) == 1
+              and isinstance(st.targets[0], ast.Name) and isinstance(st.value, ast.Tuple)}
+    consts.update({st.target.id: st.value for st in tree.body if isinstance(st, ast.AnnAssign) and isinstance(st.target, ast.Name)
+                   and isinstance(st.value, ast.Tuple)})
+    owners: List[Tuple[List[ast.stmt], Optional[str]]] = [(tree.body, None)]
+    owners += [(c.body, c.name) for c in tree.body if isinstance(c, ast.ClassDef)]
+    all_defs = [x.name for x in ast.walk(tree) if isinstance(x, (ast.FunctionDef, ast.AsyncFunctionDef))]
+
+    def classes_tuple(e: Optional[ast.AST]) -> Optional[ast.Tuple]:
+        if isinstance(e, ast.Tuple) and all(isinstance(x, (ast.Name, ast.Attribute)) for x in e.elts):
+            return e
+        if isinstance(e, ast.Name) and e.id in consts:
+            return classes_tuple(consts[e.id])
+        return None
+
+    for body, cname in owners:
+        for f in list(body):
+            if not isinstance(f, ast.FunctionDef) or not f.name.startswith("_") or f.name.startswith("__") or f.decorator_list:
+                continue
+            q = f"{modname}.{cname}.{f.name}" if cname else f"{modname}.{f.name}"
+            if q in known or all_defs.count(f.name) != 1 or f.args.vararg or f.args.kwarg or f.args.posonlyargs or f.args.kwonlyargs:
+                continue
+            params = [a.arg for a in f.args.args]
+            if cname:
+                if not params or params[0] != "self":
+                    continue
+                params = params[1:]
+            disp = next((pn for pn in params if any(isinstance(h, ast.ExceptHandler) and isinstance(h.type, ast.Name) and h.type.id == pn
+                                                    for h in ast.walk(f))), None)
+            if disp is None:
+                continue
+            # the helper's own default resolution: at most one re-binding, a top-level statement of a known spelling
+            rebinds = [x for x in ast.walk(f) if isinstance(x, ast.Name) and x.id == disp and isinstance(x.ctx, ast.Store)]
+            resolver = None  # (statement, kind, E)
+            for st in f.body:
+                if isinstance(st, ast.If) and not st.orelse and len(st.body) == 1 and isinstance(st.test, ast.Compare) and len(st.test.ops) == 1 \
+                        and isinstance(st.test.ops[0], ast.Is) and isinstance(st.test.left, ast.Name) and st.test.left.id == disp \
+                        and isinstance(st.test.comparators[0], ast.Constant) and st.test.comparators[0].value is None \
+                        and isinstance(st.body[0], ast.Assign) and len(st.body[0].targets) == 1 and isinstance(st.body[0].targets[0], ast.Name) \
+                        and st.body[0].targets[0].id == disp:
+                    resolver = (st, "none", st.body[0].value)
+                elif isinstance(st, ast.Assign) and len(st.targets) == 1 and isinstance(st.targets[0], ast.Name) and st.targets[0].id == disp:
+                    v = st.value
+                    if isinstance(v, ast.BoolOp) and isinstance(v.op, ast.Or) and len(v.values) == 2 and isinstance(v.values[0], ast.Name) \
+                            and v.values[0].id == disp:
+                        resolver = (st, "falsy", v.values[1])
+                    elif isinstance(v, ast.IfExp) and isinstance(v.test, ast.Compare) and len(v.test.ops) == 1 and isinstance(v.test.left, ast.Name) \
+                            and v.test.left.id == disp and isinstance(v.test.comparators[0], ast.Constant) and v.test.comparators[0].value is None:
+                        if isinstance(v.test.ops[0], ast.Is) and isinstance(v.orelse, ast.Name) and v.orelse.id == disp:
+                            resolver = (st, "none", v.body)
+                        elif isinstance(v.test.ops[0], ast.IsNot) and isinstance(v.body, ast.Name) and v.body.id == disp:
+                            resolver = (st, "none", v.orelse)
+                if resolver is not None:
+                    break
+            if len(rebinds) != (1 if resolver is not None else 0):
+                continue
+            if resolver is not None and classes_tuple(resolver[2]) is None:
+                continue
+            idx = params.index(disp)
+            refs = [x for x in ast.walk(tree) if (isinstance(x, ast.Attribute) and x.attr == f.name) or (isinstance(x, ast.Name) and x.id == f.name)]
+            calls = [x for x in ast.walk(tree) if isinstance(x, ast.Call) and any(x.func is r for r in refs)]
+            if not calls or len(calls) != len(refs):
+                continue
+            pos = idx + (1 if cname else 0)
+            nargs = len(f.args.args)
+            dpos = pos - (nargs - len(f.args.defaults))
+            default = f.args.defaults[dpos] if 0 <= dpos < len(f.args.defaults) else None
+            values: List[Tuple[ast.Call, str, ast.Tuple]] = []
+            for c in calls:
+                if any(isinstance(a, ast.Starred) for a in c.args) or any(k.arg is None for k in c.keywords):
+                    values = []
+                    break
+                arg = c.args[idx] if idx < len(c.args) else next((k.value for k in c.keywords if k.arg == disp), default)
+                if arg is None:
+                    values = []
+                    break
+                is_none = isinstance(arg, ast.Constant) and arg.value is None
+                tup = classes_tuple(arg)
+                if not is_none and tup is None:
+                    values = []
+                    break
+                if resolver is not None and (is_none or (resolver[1] == "falsy" and tup is not None and not tup.elts)):
+                    tup = classes_tuple(resolver[2])
+                if tup is None:  # None reaches `except None:` - not a spelling to specialise
+                    values = []
+                    break
+                values.append((c, ast.dump(tup), tup))
+            if not values:
+                continue
+            distinct = sorted({k for _c, k, _t in values})
+            if len(distinct) > 4:
+                continue
+            tags = {k: f"h{i}" for i, k in enumerate(distinct)}
+
+            class _S(ast.NodeTransformer):
+                def __init__(self, tup: ast.Tuple) -> None:
+                    self.tup = tup
+
+                def visit_Name(self, node):  # type: ignore[no-untyped-def]
+                    if node.id == disp and isinstance(node.ctx, ast.Load):
+                        return ast.copy_location(copy.deepcopy(self.tup), node)
+                    return node
+
+            clones = []
+            for k in distinct:
+                tup = next(t for _c, kk, t in values if kk == k)
+                cl = copy.deepcopy(f)
+                cl.name = f"{f.name}__{tags[k]}"
+                del cl.args.args[pos]
+                if 0 <= dpos < len(cl.args.defaults):
+                    del cl.args.defaults[dpos]
+                if resolver is not None:
+                    ri = f.body.index(resolver[0])
+                    del cl.body[ri]
+                cl.body = [_S(tup).visit(st) for st in cl.body] or [ast.Pass()]
+                ast.fix_missing_locations(cl)
+                clones.append(cl)
+            at = body.index(f)
+            body[at:at + 1] = clones
+            for c, k, _t in values:
+                if isinstance(c.func, ast.Attribute):
+                    c.func.attr = f"{f.name}__{tags[k]}"
+                elif isinstance(c.func, ast.Name):
+                    c.func.id = f"{f.name}__{tags[k]}"
+                if idx < len(c.args):
+                    del c.args[idx]
+                else:
+                    c.keywords = [kw for kw in c.keywords if kw.arg != disp]
+
+
 @dataclass
 class T:
     """A (very) small type: class qualified name + type arguments."""
@@ -1508,6 +1647,7 @@ class Program:
             _record_field_aliases(tree, records)
             modname = f"{PKG}.{fn[:-3]}" if fn != "__init__.py" else PKG
             _specialise_constant_dispatch(tree, modname, self.known)
+            _specialise_handler_class_params(tree, modname, self.known)
             m = Module(modname, path, os.path.relpath(path, self.repo_root), src, tree)
             self.modules[modname] = m
             self._index_module(m)
